@@ -320,7 +320,7 @@ func init() {
 	register(&Scenario{Prop: "C17", Name: "c17/leasttime-3x5", Quick: []Bound{{0, 0}}, Thorough: []Bound{{0, 0}}, Body: c17LeastTime(3, 5), MaxSteps: 100000})
 	register(&Scenario{Prop: "C17", Name: "c17/leasttime-3x7", Quick: []Bound{}, Thorough: []Bound{{0, 0}}, Body: c17LeastTime(3, 7), MaxSteps: 100000, BudgetT: 400})
 	register(&Scenario{Prop: "C17", Name: "c17/leasttime-4targets", Quick: []Bound{{0, 0}}, Thorough: []Bound{{0, 0}}, Body: c17LeastTimeMany(4), MaxSteps: 100000})
-	register(&Scenario{Prop: "C17", Name: "c17/leasttime-5targets", Quick: []Bound{{0, 0}}, Thorough: []Bound{{0, 0}}, Body: c17LeastTimeMany(5), MaxSteps: 100000})
+	register(&Scenario{Prop: "C17", Name: "c17/leasttime-5targets", Quick: []Bound{{0, 0}}, Thorough: []Bound{{0, 0}}, Body: c17LeastTimeMany(5), MaxSteps: 100000, BudgetQ: 25})
 	register(&Scenario{Prop: "C17", Name: "c17/leasttime-6targets", Quick: []Bound{}, Thorough: []Bound{{0, 0}}, Body: c17LeastTimeMany(6), MaxSteps: 100000})
 	register(&Scenario{Prop: "C17", Name: "c17/unreachable", Quick: []Bound{{1, 0}}, Thorough: []Bound{{2, 0}}, Body: c17Unreachable, MaxSteps: 100000})
 }
